@@ -326,7 +326,7 @@ fn main() {
     let depth = std::env::var("C17_DEPTH")
         .ok()
         .and_then(|s| s.parse().ok())
-        .unwrap_or(r.pick(5usize, 16usize));
+        .unwrap_or(r.pick(6usize, 16usize));
     // ceiling pass: the request's declared bound IS the v1 ceiling (1 MiB) and the valid result is
     // exactly that long, so live admission, durable encoding and the recovery decoder all meet the
     // boundary value; every committing step again with a fault at every store call + recovery
